@@ -1004,6 +1004,13 @@ fn run_badka(t: char, side: char) -> (String, String, String, String) {
 /// 64 KiB messages) and then stays connected and silent.  Everything must reach the callback although no
 /// further traffic follows: the adapter's read loop may only stop when the socket has nothing left.
 fn run_slow_reader(t: char) -> (String, String, String, String) {
+    run_slow_reader_v(t, false)
+}
+
+/// `boundary`: the tail is one message that fills the 65535-byte read buffer exactly (with its prefix, for
+/// FramedTcp) and a 10-byte one behind it: a read that ends on a message boundary says nothing about
+/// what is still queued
+fn run_slow_reader_v(t: char, boundary: bool) -> (String, String, String, String) {
     let tr = transport(t);
     let (rh, rl) = node::split::<()>();
     let (_lid, addr) = rh.network().listen(tr, "127.0.0.1:0").unwrap();
@@ -1022,7 +1029,13 @@ fn run_slow_reader(t: char) -> (String, String, String, String) {
     std::thread::sleep(Duration::from_millis(50));
     let frame = |m: &[u8]| -> Vec<u8> { if t == 'F' { [varint(m.len() as u64), m.to_vec()].concat() } else { m.to_vec() } };
     let first = vec![1u8; 1];
-    let tail: Vec<Vec<u8>> = (0..3).map(|k| (0..65536usize).map(|i| (i * 7 + k * 13) as u8).collect()).collect();
+    let tail: Vec<Vec<u8>> = if boundary {
+        let big = if t == 'F' { 65532 } else { 65535 };
+        vec![(0..big).map(|i| (i * 7) as u8).collect(), vec![9u8; 10]]
+    }
+    else {
+        (0..3).map(|k| (0..65536usize).map(|i| (i * 7 + k * 13) as u8).collect()).collect()
+    };
     let _ = peer.write_all(&frame(&first));
     // wait until the node is inside the first callback
     let t0 = Instant::now();
@@ -1047,9 +1060,9 @@ fn run_slow_reader(t: char) -> (String, String, String, String) {
     rh.stop();
     drop(peer);
     let flat = msgs.concat();
-    let ok = flat == want && (t == 'T' || msgs.len() == 4);
+    let ok = flat == want && (t == 'T' || msgs.len() == 1 + tail.len());
     (
-        format!("stream slowreader {}", t),
+        format!("stream slowreader {}{}", t, if boundary { " boundary" } else { "" }),
         format!("delivered={}", if ok { "all" } else { "not-all" }),
         if ok { "ok".into() } else { format!("FAIL {} of {} bytes ({} events) reached the callback 6 s after the peer went silent", flat.len(), want.len(), msgs.len()) },
         format!("slowreader{},multi-buffer,slow-receiver", t),
@@ -1091,7 +1104,27 @@ fn run_mt(t: char, threads: usize, per: usize, size: usize) -> (String, String, 
             bad
         }));
     }
+    // meanwhile another thread of the sending node opens and removes unrelated connections of the same
+    // transport (registry writes): lookups of the live endpoint must wait for them, not fail
+    let churn_stop = Arc::new(std::sync::atomic::AtomicBool::new(false));
+    let churn = {
+        let (h, stop) = (c.handler.clone(), churn_stop.clone());
+        std::thread::spawn(move || {
+            let mut n = 0usize;
+            while !stop.load(std::sync::atomic::Ordering::SeqCst) {
+                if let Ok((e2, _)) = h.network().connect(tr, addr) {
+                    std::thread::sleep(Duration::from_micros(300));
+                    h.network().remove(e2.resource_id());
+                    n += 1;
+                }
+                std::thread::sleep(Duration::from_micros(200));
+            }
+            n
+        })
+    };
     let bad_sends: usize = hs.into_iter().map(|h| h.join().unwrap()).sum();
+    churn_stop.store(true, std::sync::atomic::Ordering::SeqCst);
+    let _churned = churn.join().unwrap_or(0);
     let want = threads * per;
     a.wait(Duration::from_secs(8), |evs| if evs.iter().filter(|e| matches!(e, Ev::Message(..))).count() >= want { Some(()) } else { None });
     std::thread::sleep(Duration::from_millis(60));
@@ -1224,6 +1257,8 @@ fn main() {
             for t in arg(2).chars() {
                 let (c, im, o, tg) = run_slow_reader(t);
                 emit(&mut out, &c, &im, &o, &tg);
+                let (c, im, o, tg) = run_slow_reader_v(t, true);
+                emit(&mut out, &c, &im, &o, &tg);
             }
         }
         "gen-duplex" => {
@@ -1337,8 +1372,8 @@ fn main() {
                     let (c, i, o, tg) = run_size(ws[2].chars().next().unwrap_or('W'), ws[3] == "c2a", ws[4].parse().unwrap_or(0));
                     emit(&mut out, &c, &i, &o, &tg);
                 }
-                else if ws.len() == 3 && ws[0] == "stream" && ws[1] == "slowreader" {
-                    let (c, i, o, tg) = run_slow_reader(ws[2].chars().next().unwrap_or('T'));
+                else if (ws.len() == 3 || ws.len() == 4) && ws[0] == "stream" && ws[1] == "slowreader" {
+                    let (c, i, o, tg) = run_slow_reader_v(ws[2].chars().next().unwrap_or('T'), ws.len() == 4);
                     emit(&mut out, &c, &i, &o, &tg);
                 }
                 else if ws.len() == 4 && ws[0] == "stream" && ws[1] == "badka" {
